@@ -27,7 +27,10 @@ RULE = ("Hypothesis: real-basis expressions = 1-3 terms of rational "
         "factor_intermediates(generated subset and order of types/names, "
         "max_order) applied to the expanded or reduced form, or to the "
         "expanded form of a long intermediate (t2_2, t1_2, p0_2) in which one "
-        "generated term got a deviating prefactor (factor_perturbed). Oracle: value on "
+        "generated term got a deviating prefactor (factor_perturbed), or of a "
+        "single-term intermediate plus denominator-free copies of its "
+        "expanded terms (factor_passthrough); multi-term inputs may hold a "
+        "low-order term without any intermediate. Oracle: value on "
         "a canonical-HF F_p model in which every intermediate tensor takes "
         "the value of its registered definition (amplitudes/densities from "
         "RSPT, composite intermediates by evaluating their definitions "
@@ -235,10 +238,45 @@ def st_pert_case(draw, tier):
             "mseed": draw(st.integers(0, 2**31))}
 
 
+SHORT = [t for t in TEMPLATES if t[0] in ("p2", "t2sq") or
+         (t[0].startswith("t2eri") and t[0] not in ("t2eriA", "t2eriB"))]
+SHORT_NAMES = dict(COMPOSITE_NAMES := {
+    "t2eri1": "t2eri_1", "t2eri2": "t2eri_2", "t2eri3": "t2eri_3",
+    "t2eri4": "t2eri_4", "t2eri5": "t2eri_5", "t2eri6": "t2eri_6",
+    "t2eri7": "t2eri_7", "t2sq": "t2sq"})
+
+
+@st.composite
+def st_pass_case(draw, tier):
+    """a single-term intermediate written out, plus copies of its expanded
+    terms WITHOUT their orbital-energy denominators (same integral blocks,
+    cannot be part of the intermediate): they have to pass through the
+    factorisation unchanged"""
+    itm = draw(st.sampled_from(SHORT))
+    objs = [itm]
+    if draw(st.booleans()):
+        objs.append(draw(st.sampled_from(PLAIN[6:])))
+    t, tg = draw(st_term(draw(st.integers(0, 2)), tier, fixed_objs=objs))
+    if itm[0] == "p2":
+        name = "p0_2_oo" if itm[2] == "o" else "p0_2_vv"
+        typ = "mp_density"
+    else:
+        name, typ = SHORT_NAMES[itm[0]], "misc"
+    sel = draw(st.sampled_from([[name], [name], [typ], [name, "t2_1"]]))
+    return {"terms": [t], "targets": sorted(tg), "req": "factor_passthrough",
+            "pert": [0, draw(st.sampled_from([1, -1, 2, 3])),
+                     draw(st.sampled_from([1, 1, 2]))],
+            "itmds": sel, "max_order": None,
+            "size": draw(st.sampled_from([[2, 2], [3, 2], [2, 3]])),
+            "mseed": draw(st.integers(0, 2**31))}
+
+
 @st.composite
 def st_case(draw, tier):
     if draw(st.integers(0, 4)) == 0:
         return draw(st_num_case())
+    if draw(st.integers(0, 5)) == 0:
+        return draw(st_pass_case(tier))
     if draw(st.integers(0, 4)) == 0:
         return draw(st_pert_case(tier))
     n_terms = draw(st.sampled_from([1, 1, 2, 3]))
@@ -249,6 +287,15 @@ def st_case(draw, tier):
         t, tg = draw(st_term(n_target, tier))
         terms.append(t)
         targets = tg
+    if n_target == 0 and draw(st.integers(0, 2)) == 0:
+        # a low-order term without any intermediate (no denominator after
+        # the expansion): has to pass through every request unchanged
+        extra = draw(st.sampled_from([
+            [PLAIN[0], PLAIN[0]], [PLAIN[0], PLAIN[0], PLAIN[7]],
+            [PLAIN[0], PLAIN[6], PLAIN[6]], [PLAIN[0], PLAIN[1], PLAIN[0]],
+            [PLAIN[2], PLAIN[2]], [PLAIN[3], PLAIN[3], PLAIN[7]]]))
+        t, _ = draw(st_term(0, tier, fixed_objs=extra))
+        terms.append(t)
     req = draw(st.sampled_from(["expand_fully", "expand_once", "reduce",
                                 "factor_expanded", "factor_expanded",
                                 "factor_reduced"]))
@@ -363,6 +410,19 @@ def run_case(case):
             ref[0] = x2
             ref.append(x)
             return factor_intermediates(x2.copy(), **fkw)
+        if req == "factor_passthrough":
+            from adcgen import EriOrbenergy
+            x = e.copy().expand_intermediates(fully_expand=True).expand()
+            _, p_, q_ = case["pert"]
+            bare = S.Zero
+            for tk in x.terms:
+                eo = EriOrbenergy(tk)
+                bare += eo.pref * eo.eri.sympy
+            x2 = Expr(x.sympy + Rational(p_, q_) * bare, real=True,
+                      sym_tensors=["p2", "p3", "t2sq"],
+                      target_idx=list(targets))
+            ref[0] = x2
+            return factor_intermediates(x2.copy(), **fkw)
         if req == "expand_fully":
             return e.copy().expand_intermediates(fully_expand=True)
         if req == "expand_once":
@@ -431,6 +491,9 @@ def run_case(case):
     else:
         r.nontrivial = changed and bool((v0 != 0).any())
     r.cls(req, "result_has_itmd" if has_itmd(out.sympy) else "no_itmd_left")
+    if any(all(o["name"] in ("V", "x", "z", "Y") for o in t["objs"])
+           for t in case["terms"]):
+        r.cls("term_without_intermediate")
     if any(t.get("num") for t in case["terms"]):
         r.cls("orbital_energy_numerator")
     return r
